@@ -260,7 +260,8 @@ def c16_2(rep, ix, f, sh):
         fwd = (a0, a1) == ("%s[%s - 1][0]" % (cm, i), "%s[%s][0]" % (cm, i))
         rev = (a1, a0) == ("%s[%s - 1][0]" % (cm, i), "%s[%s][0]" % (cm, i))
         verdict = True if fwd else (False if rev else None)
-    elif " ".join(u(l.iter).split()) in ("zip(%s, %s[1:])" % (cm, cm), "zip(%s[:-1], %s[1:])" % (cm, cm)) and isinstance(l.target, ast.Tuple) and len(l.target.elts) == 2:
+    elif " ".join(u(l.iter).split()) in ("zip(%s, %s[1:])" % (cm, cm), "zip(%s[:-1], %s[1:])" % (cm, cm), "pairwise(%s)" % cm, "itertools.pairwise(%s)" % cm) \
+            and isinstance(l.target, ast.Tuple) and len(l.target.elts) == 2:
         def index_of(t):
             if isinstance(t, ast.Tuple) and t.elts:
                 return u(t.elts[0])
